@@ -553,6 +553,47 @@ fn geo_case(ctx: &mut Ctx, g: &Geometry, plain: &[bool], tag: &str) {
             match maxu { 0 => "bit-identical", 1 => "1 ulp", 2 => "2 ulp", _ => ">2 ulp (components near 0)" }
         ));
         if a.w[..3] == b.w[..3] { ctx.out.count("position: bit-identical") } else { ctx.out.count("position: equal as numbers, sign of zero differs") }
+        // oracle only (the model's `geo` line carries transducer 0 and the quaternion): transducer 0 sits at the local
+        // origin, so the rotation never shows in its position. Every other transducer of the rebuilt device must be
+        // where the original has it; the device axes likewise. The decoder re-normalises the quaternion (a few 2^-24
+        // per component), which moves a transducer at most |local offset| (≤ 220 mm) times that: compared as numbers
+        // within 2^-18·(|position| + 256 mm); a rebuilt device with a conjugated / identity / mixed-up rotation is off
+        // by up to hundreds of millimetres.
+        {
+            let (da, db) = (&g[i], &g2[i]);
+            let mut worst: Option<(usize, usize, f32, f32)> = None;
+            let mut skipped = false;
+            if da.num_transducers() != db.num_transducers() {
+                bad = Some(format!("{} transducers came back as {}", da.num_transducers(), db.num_transducers()));
+            } else {
+                for (t, (ta, tb)) in da.iter().zip(db.iter()).enumerate() {
+                    let (pa, pb) = (ta.position(), tb.position());
+                    for c in 0..3 {
+                        let (x, y) = (pa[c], pb[c]);
+                        if !x.is_finite() || !y.is_finite() {
+                            skipped = true;
+                            continue;
+                        }
+                        let tol = 2.0f64.powi(-18) * (x.abs() as f64 + 256.0);
+                        let d = (x as f64 - y as f64).abs();
+                        if d > tol && worst.map(|w| (w.2 as f64 - w.3 as f64).abs() < d).unwrap_or(true) {
+                            worst = Some((t, c, x, y));
+                        }
+                    }
+                }
+                if let Some((t, c, x, y)) = worst {
+                    bad = Some(format!("transducer {t} position[{c}] {x:?} came back as {y:?} (transducer 0 and the quaternion agree: the rebuilt device is rotated differently)"));
+                }
+                for (name, va, vb) in [("x", da.x_direction(), db.x_direction()), ("y", da.y_direction(), db.y_direction()), ("axial", da.axial_direction(), db.axial_direction())] {
+                    for c in 0..3 {
+                        if va[c].is_finite() && vb[c].is_finite() && (va[c] as f64 - vb[c] as f64).abs() > 2.0f64.powi(-18) {
+                            bad = Some(format!("{name} direction[{c}] {:?} came back as {:?}", va[c], vb[c]));
+                        }
+                    }
+                }
+            }
+            ctx.out.count(if skipped { "all 249 transducers + axes compared within tolerance (oracle only; non-finite coordinates skipped)" } else { "all 249 transducers + axes compared within tolerance (oracle only)" });
+        }
         if let Some(what) = bad {
             ctx.out.violation(key.clone(), format!("device {i} of {} [{tag}]: {what}", poses.len()), vec![op.clone()]);
         }
